@@ -6,7 +6,10 @@ func init() {
 	scenarios["cdp"] = &Scenario{
 		Name: "cdp", NActors: cdpActors, Draw: drawCdpConfig,
 		Setup: func(w *World) { setupCdp(w); w.warmOracle() },
-		Gens:  func(w *World) []OpGen { return append(append(cdpGens(), liqGens()...), auxGens()...) },
+		Gens: func(w *World) []OpGen {
+			cfgTriggerBoost = w.Cfg.K("trigger_boost")
+			return append(append(cdpGens(), liqGens()...), auxGens()...)
+		},
 		PBlock: 220,
 	}
 
@@ -230,9 +233,8 @@ func mergeLendParts() {
 				}
 				cfg.Knobs["vault_interest"] = 1
 				cfg.Knobs["oog"] = 0
-				if cfg.Knobs["gap_profile"] == 0 {
-					cfg.Knobs["gap_profile"] = 1 + int64(r.Intn(3))
-				}
+				cfg.Knobs["trigger_boost"] = int64(r.Intn(3))
+				cfg.Knobs["gap_profile"] = int64(r.Intn(4)) // seconds (sub-unit accruals) up to years
 			},
 			Rule: "cdp workload: twin worlds from the same genesis receive the same seeded event stream except that pure interest-trigger transactions (vault interest calc, locker reward calc) reach world A only (schedule fault: extra triggers at PRNG-chosen times, gaps from seconds to years); at every block boundary each vault with equal principal in both worlds is accrued to now on discarded branches and compared (A must not owe more than B beyond one unit + float64 resolution per step); in world A every trigger is checked for accrual >= 0 and == 0 over zero elapsed time. lend workload: " + l.Rule + "; distinct = distinct digest of the event stream; non-trivial = an accrual trigger was checked",
 			Assume: append([]string{"monotonicity in principal and rate is not checked by twins (only time: split vs single accrual); the pure numeric quantifier over all (amount, rate, time) is not claimed (DESIGN §9)", "twin comparison stops for a run as soon as a transaction succeeds in one world and fails in the other"}, l.Assume...),
